@@ -35,6 +35,7 @@ def _case(draw, max_n):
             gen.motif_rich(min_n=2, max_n=max_n),
             gen.networks(max_n=max_n, core_weight=1, kinds=("deep", "diamond", "edge2", "maa")),
             gen.with_inputs(gen.motif_rich(max_n=max_n)),
+            gen.switched(max_n),
         )
     )
     n = len(nj["names"])
